@@ -63,6 +63,12 @@ def replay_hand():
          "steps": [p("NEWDASTARD", 1), p("STATUS", 1), p("TRIANGLE", 1), p("STATUS", 2), p("ALIVE", 1), p("STATUS", 2), {"k": "sendall"},
                    p("TRIGGER", 1), p("WRITING", 1), p("ALIVE", 2), p("TRIGGER", 1), p("STATUS", 1), {"k": "sendall"},
                    {"k": "wait"}, {"k": "sendall"}, {"k": "restart"}]},
+        # a change arms the delayed save; before it fires, persistent topics are repeated with UNCHANGED values (a client
+        # connecting and asking for all status does that): the change must still reach the file
+        {"origin": "hand:replay-unchanged-repeat", "main0": "empty", "vseed": 6,
+         "steps": [p("STATUS", 1), p("TRIANGLE", 1), p("WRITING", 1), {"k": "wait"},
+                   p("TRIANGLE", 2), p("STATUS", 1), p("WRITING", 1), p("TRIANGLE", 2), {"k": "sendall"},
+                   {"k": "wait"}, {"k": "restart"}]},
     ]
 
 
